@@ -844,11 +844,18 @@ class HelicityDecay(AmpDecay):
 
     def get_cg_matrix(self, out_sym=False):
         ls = self.get_ls_list()
-        return self._get_cg_matrix(
-            ls, out_sym=out_sym, helicity_inner_full=self.helicity_inner_full
-        )
+        # cached per object: decays compare equal by particle names only, while
+        # the matrix depends on the spins and helicities of this very decay
+        key = (ls, out_sym, self.helicity_inner_full)
+        cache = self.__dict__.setdefault("_cg_matrix_cache", {})
+        if key not in cache:
+            cache[key] = self._get_cg_matrix(
+                ls,
+                out_sym=out_sym,
+                helicity_inner_full=self.helicity_inner_full,
+            )
+        return cache[key]
 
-    @functools.lru_cache()
     def _get_cg_matrix(
         self, ls, out_sym=False, helicity_inner_full=False
     ):  # CG factor inside H
